@@ -3450,8 +3450,13 @@ class TLSConnection(TLSRecordLayer):
 
         #If client's version is too low, reject it
         real_version = clientHello.client_version
+        ext = clientHello.getExtension(ExtensionType.supported_versions)
+        if ext and not ext.versions:
+            for result in self._sendError(
+                    AlertDescription.decode_error,
+                    "Empty supported_versions extension"):
+                yield result
         if real_version >= (3, 3):
-            ext = clientHello.getExtension(ExtensionType.supported_versions)
             if ext:
                 for v in ext.versions:
                     if v in KNOWN_VERSIONS and v > real_version:
@@ -3469,6 +3474,13 @@ class TLSConnection(TLSRecordLayer):
             for result in self._sendError(
                     AlertDescription.decode_error,
                     "Malformed Client Hello message"):
+                yield result
+
+        # the list of certificate types can't be empty
+        if clientHello.certificate_types is None:
+            for result in self._sendError(
+                    AlertDescription.decode_error,
+                    "Empty cert_type extension"):
                 yield result
 
         # client hello MUST advertise uncompressed method
